@@ -148,3 +148,14 @@ PLANS["C18"] = dict(
     clauses={"input untouched": "proved (copy contract) + bounded deep comparison", "exact fraction at phi=1, 1/N at phi=0, multiple of 1/N in [1/N,1]": "proved (ensures.range, phi_zero, law)",
              "each edge kept independently with probability phi; Binomial on a star": "proved functional law (kept iff draw < phi) + assumed i.i.d. uniform draws; exact on a grid (bounded)"},
     not_decided=["the distribution of random.random() (assumed library contract)"])
+
+PLANS["C19"] = dict(
+    level="other", bounded="c19",
+    modules=[dict(name="dist")],
+    technique="deductive verification of the real pmf closures and series loops (while-1/break invariants over partial-sum spec functions, real power/exp/factorial uninterpreted), structural obligations binding each factory's captured normaliser, link obligations for every numpy/math name, VCs from the AST in z3/cvc5; 50-digit mpmath comparison on a parameter grid as labelled stand-in",
+    level_text="Proved: each closure returns literally the named formula divided by the captured normaliser, the normalisers are the partial sums of the zeta / polylogarithm series up to and including the first term below 1e-6, every library name used resolves in the installed libraries, the factories bind C exactly once to that series and return p. The size of the truncated tail, non-negativity of floating-point values and termination of the series loops are analysis, decided on a grid by the bounded stand-in only; hence `other`.",
+    level_note="Trusted: vf VC generator, z3/cvc5; A-REAL (floats as reals; pow/exp/factorial uninterpreted with positivity axioms). Bounded part: a in (0,5], mean in (0,20] with k <= 150 (float overflow of k! beyond 170 is outside A-REAL), alpha in [2,6], kappa in [0.03,50].",
+    explanation="PROVED: exponential.p / poisson.p / power_law.p / scale_free_cut_off.p formula clauses; power_law.zeta and scale_free_cut_off.polylog partial_sum + stops_at_first_small_term (loop invariants l == partial sum, zk == z^k); static factory-shape obligations; link obligation. BOUNDED: values vs mpmath zeta/polylog within the truncation bound, non-negative and finite, total mass within the bound.",
+    clauses={"returns the named formula": "proved (formula clauses + static binding of the normaliser)", "normaliser = truncated zeta / polylog series": "proved (partial_sum, stops_at_first_small_term)",
+             "non-negative, agrees with the exact law within the truncation tolerance, sums to 1 within it": "bounded (mpmath, parameter grid)"},
+    not_decided=["tail size of the truncated series and termination of the series loops for all parameters (analysis, not program logic)"])
